@@ -10,6 +10,24 @@ CHECKS = {
    note="Trusted: Coq kernel; stdlib real-number axioms (ClassicalDedekindReals.sig_not_dec, sig_forall_dec, functional_extensionality_dep, Classical_Prop.classic) as reported by Print Assumptions; translator T1 (fail closed); real-number semantics of exp/expm1/log/log1p - IEEE rounding of libm is explored by the search (tolerance 2e-14), not proved.",
    technique="Coq proof over R of a model regenerated from source (ast translator) + vm_compute correspondence + high-precision search",
    design="5/C20"),
+ "C16": dict(
+   cat="proof",
+   text="Coq theorems (no axioms) about the stager functions regenerated from src/mici/stagers.py by translator T2 on every run: for all warm-up/main counts >= 0 and all settings with first slow window >= 1, multiplier >= 1, the windowed stager terminates and returns [fast] ++ [all...] ++ [fast] ++ [main] with warm-up lengths summing exactly to n_warm_up_iter, all lengths >= 0, main stage present iff n_main_iter > 0 and carrying no adapters (windowed_partition, warmup_stager_partition, windowed_recorded_total); and about the stage loop model (Model/Sampler.v): stages without iterations change nothing and no parameter changes during a stage without adapters, whose transition calls all see the parameters left by the preceding stages (empty_stages_change_nothing, main_stage_params_constant). Ties: T2 regenerates the stager model; the generated model is compared with stages() for every n_warm below a bound and the stage-loop model with the real sample_chains driven by recording stub transitions/adapters; a search runs real dual-averaging adaptation and checks the main-stage step size.",
+   note="Trusted: Coq kernel, translator T2 (fail closed), the correspondence harness (tie/sampler_stubs.py, tie/sampler_corr.py). int(c*n) is modelled as truncation of the exact decimal product (float agreement checked for n <= 20000). Stage loop modelled for sequential execution. Theorem hypotheses first window >= 1 and multiplier >= 1 exclude settings for which stages() does not terminate (design finding G16).",
+   technique="Coq proof about a model regenerated from source (ast translator) + hand model with vm_compute correspondence against the real sampler + search",
+   design="5/C16"),
+ "C13": dict(
+   cat="proof",
+   text="Coq theorems (no axioms) about the sampler bookkeeping model Model/Sampler.v, for any transition, adapters, trace function, chain count and stage list: after a completed run row r of every chain's statistics/trace arrays holds the statistics / traced state of the r-th recorded iteration, exactly rows_total rows are written and the rest keep the fill value (rows_are_states); the stage lists of both generated stagers record exactly n_main (+ n_warm_up if traced) rows, the array length sample_chains allocates (windowed_no_fill_survives). Tie: the same stage lists, chains and adapter configurations are run through the real sample_chains with recording stubs and every array, final state and parameter compared with the model evaluated by vm_compute; storage variants (memmap temp/user dir, dict initial states) and real HMC samplers re-derived row by row with an independent chain loop, including 2 processes and n_process=None.",
+   note="Trusted: Coq kernel, hand model tied by correspondence (generator quality bounds it), translator T2. Sequential execution is modelled; equality of memory-mapped / multi-process storage with in-memory storage is explored by the search, not proved (partial for that clause).",
+   technique="Coq proof (invariant over the flattened loop nest) + vm_compute correspondence against the real sampler + search",
+   design="5/C13"),
+ "C15": dict(
+   cat="proof",
+   text="Coq theorems (no axioms) about Model/Sampler.v for every callback-call index at which KeyboardInterrupt is raised (inside a transition, a trace function or an adapter initialisation), any transition/adapters/stage list: the interrupted run equals the uninterrupted run on a prefix of the loop nest's tasks followed by the raising step, after which nothing runs (interrupt_stops_everything); completed iterations are recorded exactly as in the uninterrupted run, every row is such a row or still the fill value, the transition calls made are a prefix of the uninterrupted run's (interrupt_prefix). Tie: the real sample_chains is interrupted at every callback-call index of several configurations (and random ones) through recording stubs and compared with the model; a search interrupts real HMC runs inside density/gradient/trace callbacks, sequentially and with 2 processes, in memory and memory-mapped (flush-after-last-write oracle).",
+   note="Trusted: Coq kernel, hand model tied by correspondence, translator T2. The interrupt is raised synchronously by a user callback; OS signal delivery and worker-process behaviour are explored by the search only (partial for the multi-process clause).",
+   technique="Coq proof (prefix decomposition of a fold with an absorbing stop state) + fault-point correspondence against the real sampler + search",
+   design="5/C15"),
 }
 
 NOT_YET = "check not built yet in this round (design in DESIGN.md section 5); no claim is made"
